@@ -28,7 +28,7 @@ using tulz::rwp::Resource;
 using verif::ev;
 
 static int readersIn = 0, writersIn = 0, barrierTarget = 0, barrierIn = 0;
-static bool hasH = false, hHolding = false, crowd = false;
+static bool hasH = false, hHolding = false, hLeaving = false, crowd = false;
 static int holdTarget = 0;
 static int warpBits = 0;
 
@@ -44,12 +44,38 @@ static void leave(char k) { if (k == 'R') readersIn--; else writersIn--; }
 static Resource *g_other = nullptr;
 
 static void section(Resource &res, int t, char op, bool barrier) {
-    if (op == 'N') {
-        g_other->lockRead();
-        section(res, t, 'R', false);
-        g_other->unlockRead();
+    // sections of the Resource under test taken while the thread holds a lock of the unrelated Resource `other`:
+    //   N = other.read { res.read }   O = other.write { res.read }   P = other.read { res.write }   M = other.write { res.write }
+    if (op == 'N' || op == 'O' || op == 'P' || op == 'M') {
+        bool ow = op == 'O' || op == 'M';
+        if (ow) g_other->lockWrite(); else g_other->lockRead();
+        section(res, t, (op == 'N' || op == 'O') ? 'R' : 'W', false);
+        if (ow) g_other->unlockWrite(); else g_other->unlockRead();
         return;
     }
+    // Q = res.read { res.read { other.read {} } }: a read section nested in a read section of the SAME Resource by the same
+    // thread (legitimate while no writer is around: generated in writer-free programs only), with a read section of the
+    // other Resource inside.  Every lock is released by the thread that took it, innermost first.
+    if (op == 'Q') {
+        std::string ts = std::to_string(t);
+        ev("call " + ts + " R");
+        res.lockRead();
+        ev("ret " + ts);
+        enter(t, 'R');
+        res.lockRead();
+        g_other->lockRead();
+        verif::yield();
+        g_other->unlockRead();
+        res.unlockRead();
+        leave('R');
+        ev("ucall " + ts);
+        res.unlockRead();
+        ev("uret " + ts);
+        return;
+    }
+    // L = a late reader: it issues its request only when the holder's condition for leaving is already met (holdTarget requests
+    // parked), so its call is observably later than those requests' parking
+    if (op == 'L') { verif::await([] { return hHolding && (hLeaving || parkedCount() >= holdTarget); }); op = 'R'; }
     char k = (op == 'R' || op == 'r') ? 'R' : 'W';
     std::string ts = std::to_string(t);
     bool hold = op == 'H';
@@ -73,6 +99,7 @@ static void section(Resource &res, int t, char op, bool barrier) {
                 res.m_idCounter = res.m_upperUnlockBound = static_cast<Id>((1ull << warpBits) - 3);
             }
             hHolding = true; verif::await([] { return parkedCount() >= holdTarget; });
+            hLeaving = true;
         }
         else verif::yield();
         leave(k);
@@ -104,17 +131,19 @@ static void runOne(const std::vector<std::string> &progsIn) {
         // stable ids: the Resource under test is m0 / c1, the unrelated one m2 / c3 (the trace analysis looks at m0 / c1 only)
         auto &S = verif::Sched::I();
         std::unique_lock<decltype(S.G)> lk(S.G);
-        S.objId(&res.m_mutex); S.objId(&res.m_cv); S.objId(&other.m_mutex); S.objId(&other.m_cv);
+        verif::registerResourceIds(S, res); verif::registerResourceIds(S, other);
     }
     warpBits = 0;
     std::vector<std::string> progs = progsIn;
     if (!progs.empty() && !progs[0].empty() && progs[0][0] == '@') { warpBits = std::atoi(progs[0].c_str() + 1); progs.erase(progs.begin()); }
     readersIn = writersIn = barrierIn = 0;
-    barrierTarget = 0; hasH = false; hHolding = false;
+    barrierTarget = 0; hasH = false; hHolding = false; hLeaving = false;
     for (auto &p : progs) for (char c : p) { if (c == 'b') barrierTarget++; if (c == 'H') hasH = true; }
     if (warpBits) hasH = true;
     crowd = hasH && barrierTarget == 0;
     holdTarget = crowd ? (int) progs.size() - (warpBits ? 0 : 1) : barrierTarget;
+    // `H<k>`: the holder leaves as soon as k requests are parked, while later ones may still be on their way into the queue
+    for (auto &p : progs) if (p.size() > 1 && p[0] == 'H' && std::isdigit((unsigned char) p[1])) { holdTarget = std::atoi(p.c_str() + 1); p = "H"; }
     std::vector<std::unique_ptr<std::thread>> ths;
     for (size_t i = 0; i < progs.size(); i++) {
         std::string p = progs[i];
